@@ -1,5 +1,7 @@
 package sql
 
+import "reflect"
+
 // C35 (crash-freedom half) — parsing any query text returns a query or an error, never a crash.
 //
 // The query is "select " + X×8 + " from t" + tail, where X is one symbolic two-byte UTF-8
@@ -63,7 +65,20 @@ func vsymInstallRegexpStubs() {
 	})
 }
 
-var vsymTails = []string{"", " group by k", " order by k desc", " group by k order by k limit 5", " join u on _key = _key"}
+// vsymC35Templates: '#' is where the symbolic characters go (a function, not a package variable:
+// the package initialiser need not have run)
+func vsymC35Templates() []string {
+	return []string{
+		"select # from t",
+		"select # from t group by k",
+		"select # from t order by k desc",
+		"select # from t group by k order by k limit 5",
+		"select # from t join u on _key = _key",
+		"select k from t order by # desc",
+		"select k from t order by # limit 5",
+		"select k from t group by # order by k",
+	}
+}
 
 func VsymC35_NoCrash() {
 	vsymInstallRegexpStubs()
@@ -75,37 +90,112 @@ func VsymC35_NoCrash() {
 	for i := 0; i < reps; i++ {
 		x = append(x, b0, b1)
 	}
-	q := "select " + string(x) + " from t" + vsymTails[vsym_Param("tail")]
+	tmpl := vsymC35Templates()[vsym_Param("tail")]
+	q := ""
+	for i := 0; i < len(tmpl); i++ {
+		if tmpl[i] == '#' {
+			q += string(x)
+		} else {
+			q += tmpl[i : i+1]
+		}
+	}
 	_, err := Parse(q)
 	if err == nil {
 		vsym_Reach("parsed")
 	}
 }
 
-// plain-ASCII queries with symbolic letter case of the keywords: same result as all-lower-case
+// plain-ASCII queries with symbolic letter case of the keywords: same result as all-lower-case.
+// Keywords are marked with a leading '~' in the templates; each is written in lower case, in
+// upper case, or capitalised (explorer's choice, at most two non-lower spellings per query).
+func vsymC35Queries() []string {
+	return []string{
+		"~select k ~from t ~group ~by k ~order ~by k ~desc",
+		"~select _offset ~from orders ~where _partition = 2 ~and _offset >= 10 ~limit 5",
+		"~select * ~from orders ~scan ~full ~limit 10",
+		"~select * ~from orders o ~join payments p ~on o._key = p._key ~within 10m ~last 1h",
+		"~select * ~from orders ~order ~by _ts ~desc ~limit 10",
+		"~select _partition, ~count(*) ~from orders ~group ~by _partition",
+		"~explain ~select * ~from orders ~last 1h",
+		"~show ~partitions ~from orders",
+		"~show ~topics",
+		"~describe orders",
+		"~select * ~from orders ~tail 5",
+	}
+}
+
 func VsymC35_KeywordCase() {
-	vsymInstallRegexpStubs()
-	words := []string{"select", "k", "from", "t", "group", "by", "k", "order", "by", "k", "desc"}
-	kw := map[int]bool{0: true, 2: true, 4: true, 5: true, 7: true, 8: true, 10: true}
+	// (the real regexps run here: every string is concrete once the case choices are made)
+	tmpl := vsymC35Queries()[vsym_Param("query")]
 	var mixed, lower []byte
-	for wi, w := range words {
-		if wi > 0 {
-			mixed, lower = append(mixed, ' '), append(lower, ' ')
+	changed := 0
+	for i := 0; i < len(tmpl); i++ {
+		if tmpl[i] != '~' {
+			mixed, lower = append(mixed, tmpl[i]), append(lower, tmpl[i])
+			continue
 		}
-		for i := 0; i < len(w); i++ {
-			c := w[i]
+		style := 0
+		if changed < 2 {
+			style = vsym_Choose("spelling", 3)
+		}
+		if style != 0 {
+			changed++
+		}
+		first := true
+		for i+1 < len(tmpl) && tmpl[i+1] >= 'a' && tmpl[i+1] <= 'z' {
+			i++
+			c := tmpl[i]
 			lower = append(lower, c)
-			if kw[wi] && i == 0 && vsym_Bool("upper") {
+			if style == 1 || (style == 2 && first) {
 				c -= 32
 			}
+			first = false
 			mixed = append(mixed, c)
 		}
 	}
 	a, errA := Parse(string(mixed))
 	b, errB := Parse(string(lower))
 	vsym_Reach("compared")
+	vsym_Assert(errB == nil, "C35/template-is-a-valid-query")
 	vsym_Assert((errA == nil) == (errB == nil), "C35/keyword-case-does-not-change-acceptance")
-	vsym_Assert(a.Type == b.Type && a.Topic == b.Topic && a.OrderBy == b.OrderBy && a.OrderDesc == b.OrderDesc && len(a.GroupBy) == len(b.GroupBy) && len(a.Select) == len(b.Select), "C35/keyword-case-does-not-change-the-query")
+	// Raw keeps the text as written (its case is the user's); everything else must agree
+	for i := range a.Select {
+		a.Select[i].Raw = ""
+	}
+	for i := range b.Select {
+		b.Select[i].Raw = ""
+	}
+	if a.Explain != nil && b.Explain != nil {
+		for i := range a.Explain.Select {
+			a.Explain.Select[i].Raw = ""
+		}
+		for i := range b.Explain.Select {
+			b.Explain.Select[i].Raw = ""
+		}
+	}
+	vsym_Assert(reflect.DeepEqual(a, b), "C35/keyword-case-does-not-change-the-query")
+}
+
+// function names are keywords too: json_value / json_query / json_exists / count(...) in any
+// letter case select the same column kind, path and source as in lower case. The real
+// parseSelectColumn and its regexps run here (the strings are concrete once the case bits are).
+func VsymC35_FunctionCase() {
+	exprs := []string{"json_value(_value, '$.a')", "json_query(_value, '$.a')", "json_exists(_value, '$.a')", "count(*)", "max(json_value(_value, '$.n'))", "sum(_offset)"}
+	expr := exprs[vsym_Param("expr")]
+	mixed := []byte(expr)
+	flips := 0
+	for i := 0; i < len(mixed) && mixed[i] != '('; i++ {
+		if mixed[i] >= 'a' && mixed[i] <= 'z' && flips < 3 && vsym_Bool("upper") {
+			mixed[i] -= 32
+			flips++
+		}
+	}
+	a, errA := parseSelectColumn(string(mixed))
+	b, errB := parseSelectColumn(expr)
+	vsym_Reach("function-case-compared")
+	vsym_Assert((errA == nil) == (errB == nil), "C35/keyword-case-does-not-change-acceptance")
+	vsym_Assert(a.Kind == b.Kind && a.JSONPath == b.JSONPath && a.Source == b.Source && a.Column == b.Column && a.Alias == b.Alias, "C35/function-name-case-does-not-change-the-column")
+	vsym_Assert(a.AggFunc == b.AggFunc && a.AggStar == b.AggStar && a.AggColumn == b.AggColumn && a.AggJSONPath == b.AggJSONPath, "C35/function-name-case-does-not-change-the-column")
 }
 
 func VsymC35_Twin() {
